@@ -622,4 +622,9 @@ harness oracle `wfbin`). -/
 def wfBinTape (_input : Bytes) (toks : Tape) : Bool :=
   wfGo toks 0 toks.length []
 
+/-- neither a container start nor an `End` -/
+def BTok.isPlain : BTok → Bool
+  | .array _ | .object _ | .end_ _ => false
+  | _ => true
+
 end Jomini.BinTape
